@@ -2,7 +2,8 @@
 C06 — `op.derivative(x)` is the Fréchet derivative of `op` at `x`.
 Property theorems only (helper lemmas and the structural inductions are in
 `Lemmas/Deriv.lean`).  The model (`Model/Deriv.lean`) follows the derivative rules of
-`odl/operator/operator.py`, `pspace_ops.py` and the polynomial leaves of `default_ops.py` as
+`odl/operator/operator.py`, `pspace_ops.py` (Broadcast/Reduction/Diagonal/ProductSpaceOperator)
+and the polynomial leaves of `default_ops.py` (incl. the complex ones in the `C = R²` sense) as
 coded; the correspondence check runs it against /repo on every run.
 
 Polynomial world: scalars in an arbitrary commutative ring `R`; "the derivative of `op` at `x`
@@ -47,6 +48,22 @@ example :
     let d : Vec Int := fun k => if k = 0 then 1 else 0
     i.wf = true ∧ (i.run x 0, i.run x 1) = (216, 3375) ∧
       (i.deriv x).map (fun j => (j.run d 0, j.run d 1, j.isLinear)) = some (324, 2025, true) := by
+  decide
+
+/-- Non-vacuity on the product-space and complex part of the model:
+`ProductSpaceOperator([[0, x²], [A, 0]])` on `ℤ² × ℤ²` and `|·|² ∘ ((1+2i)·) ` through `cn(2)`
+(`C = R²` reading: `cn(2)` is `[re₀, re₁, im₀, im₁]`). -/
+example :
+    let P : Impl Int := .pscons 0 2 (.power 2 2)
+      (.pscons 2 0 (.matrix 1 2 (fun _ c => (c + 1 : Nat))) (.psnil 4 3))
+    let Z : Impl Int := .comp (.cmodsq 2) (.cembed 2 1 2) none
+    let x : Vec Int := fun k => k + 1
+    let d : Vec Int := fun _ => 1
+    P.wf = true ∧ P.cwf = true ∧ Z.wf = true ∧ Z.cwf = true ∧
+      (P.run x 0, P.run x 1, P.run x 2) = (9, 16, 5) ∧
+      (P.deriv x).map (fun j => (j.run d 0, j.run d 1, j.run d 2)) = some (6, 8, 3) ∧
+      (Z.run x 0, Z.run x 1) = (5, 20) ∧
+      (Z.deriv x).map (fun j => (j.run d 0, j.run d 1)) = some (10, 20) := by
   decide
 
 /-- `derivative(x)` is a linear operator from `op.domain` to `op.range`: it exists, passes the
